@@ -388,6 +388,62 @@ func c20(c *core.Ctx) {
 				"operation": "Build in place from values obtained by the typed getters of the same message (views into its own buffer), layout variant " + fmt.Sprint(i), "allocs_per_run": a})
 		}
 	})
+	// the everyday failures are as free as the successes: a check under the wrong key right before the right one, a batch
+	// of getters/checkers of which one finds nothing
+	c.SectionSerial("failures-in-the-hot-path", 4, func(i int64, r *gen.Rand) {
+		key, wrong := stun.MessageIntegrity("the right key"), stun.MessageIntegrity("a wrong key")
+		src := stun.MustBuild(stun.BindingSuccess, stun.NewTransactionIDSetter(r.TID()), stun.NewUsername("user"), stun.NewNonce("nonce"),
+			&stun.XORMappedAddress{IP: net.IP(r.Bytes(4)), Port: 1234}, key, stun.Fingerprint)
+		buf := make([]byte, len(src.Raw), len(src.Raw)+128) // spare capacity: outside the recorded finding
+		copy(buf, src.Raw)
+		m := &stun.Message{Raw: buf}
+		if err := m.Decode(); err != nil {
+			fatalHarness("C20 failures: " + err.Error())
+		}
+		noMI := stun.MustBuild(stun.BindingSuccess, stun.NewTransactionIDSetter(r.TID()), stun.NewUsername("user"), stun.Fingerprint)
+		m2 := new(stun.Message)
+		_ = stun.Decode(noMI.Raw, m2)
+		var user stun.Username
+		var realm stun.Realm
+		var nonce stun.Nonce
+		var addr stun.XORMappedAddress
+		fp := stun.Fingerprint
+		var f func()
+		var what string
+		switch i {
+		case 0:
+			if c.Config != "rel" {
+				return // the debug build documents an allocation for the detailed mismatch error
+			}
+			what = "Check(wrong key) failing, then Check(right key)"
+			f = func() { _ = wrong.Check(m); _ = key.Check(m) }
+		case 1:
+			if c.Config != "rel" {
+				return
+			}
+			what = "Check(wrong key) failing, then Build(..., &integrity) on another message"
+			build := new(stun.Message)
+			sw := stun.NewSoftware("x")
+			setters := []stun.Setter{stun.BindingRequest, &sw, &key}
+			_ = build.Build(setters...)
+			f = func() { _ = wrong.Check(m); _ = build.Build(setters...) }
+		case 2:
+			what = "Parse(&user, &realm, &nonce, &addr) on a message without REALM"
+			getters := []stun.Getter{&user, &realm, &nonce, &addr}
+			_ = m.Parse(getters...)
+			f = func() { _ = m.Parse(getters...) }
+		default:
+			what = "Check(&Fingerprint, &integrity) on a message without MESSAGE-INTEGRITY"
+			checkers := []stun.Checker{&fp, &key}
+			_ = m2.Check(checkers...)
+			f = func() { _ = m2.Check(checkers...) }
+		}
+		f()
+		c.Eval(1)
+		if a := testing.AllocsPerRun(100, f); a != 0 {
+			c.Violate("allocates", fmt.Sprintf("alloc:failure-in-the-hot-path:%d", i), map[string]interface{}{"operation": what, "allocs_per_run": a})
+		}
+	})
 	// an attribute-less message in between must not cost the warm attribute list
 	c.SectionSerial("empty-then-full-decode", 3, func(i int64, r *gen.Rand) {
 		setters := []stun.Setter{stun.BindingSuccess, stun.NewTransactionIDSetter(r.TID())}
